@@ -20,3 +20,5 @@ mod c11_reader;
 mod prost_scalar;
 #[cfg(kani)]
 mod prost_more;
+#[cfg(kani)]
+mod len_ext;
